@@ -140,7 +140,9 @@ PROPS = {
                    'instance only: panics during table construction are violations; when no conflict is reported the real parser must accept '
                    'exactly the language within the length bound.',
         level_note='Same trusted base as C03. No reference LALR(1) construction is verified here, so "every conflict is reported" is only '
-                   'partially decided (a silently dropped conflict is caught if it loses or adds a sentence within the bound).',
+                   'partially decided: a silently dropped conflict is caught if it loses or adds a sentence within the bound, or if the grammar '
+                   'has an ambiguity witness (two different derivation trees of one word, found by an unverified search and validated by the '
+                   'proved checker C04_ambig_check_sound; that an ambiguous grammar is not LALR(1) is the classical fact used, not formalised).',
         technique='Rocq proof (validator soundness independent of conflicts) + translation validation + differential run against the verified recogniser',
         streams=[dict(cmd='c03', quick=160, thorough=6000, extra=['--conflicts'])],
         rule='as C03 with more ambiguous / conflicting grammars; non-trivial = table with at least one resolved conflict or a recursive/cyclic '
